@@ -12,7 +12,7 @@ THOROUGH_SEEDS = 8
 GEN = [constants.gen]
 TIE = ['Ufw.Tie.RegTable']
 RULE = ("operation sequences (typed set, unchecked set excluded, bit set, bit clear, block write, sanitise, interleaved with reads of every "
-        "register) of length 100 (thorough 600) over generated tables mixing all register types and constraint kinds, operands biased to the "
+        "register) of length 100 (thorough 600) over generated tables (one area, register-free writable neighbours, registers split over two areas that touch or leave a hole) mixing all register types and constraint kinds, operands biased to the "
         "constraint bounds; arbitrary out-of-band corruption (random atoms, NaN/subnormal patterns, out-of-range values) poked into the storage "
         "before sanitise.  After every operation the complete storage, touched marks and every register's value are compared.  Non-trivial = "
         "every sequence; distinct = distinct operation text.")
@@ -44,13 +44,37 @@ def make_table(rnd, with_fail):
         kind = rnd.choice(kinds)
         ents.append((ty, addr, kind))
         addr += SIZE[ty] + rnd.choice([0, 0, 1])
-    size = addr - 16 + 1
+    end = addr + 1
     # mostly plain read-write memory; also callback-backed, write-only (block reads deliver zeroes there, which must
     # not leak into validation) and areas whose content cannot be written back (sanitise is cut short)
     flags, akind = rnd.choice([("rw", "M"), ("rw", "M"), ("rw", "CRW"), ("w", "M"), ("w", "CRW"), ("rw", "CR-"), ("r", "M")])
-    line = "rt.table %d 16:%d:%s:%s %s" % (rnd.randint(0, 1), size, flags, akind,
-                                           "|".join("%s:%d:%s:%s" % (ty, a, default_for(ty, k), checks(ty)[k]) for ty, a, k in ents))
-    return line, ents, size
+    # layouts: one area; a register-free writable neighbour directly behind or in front of it (a block may start or
+    # end there); the registers split over two areas that touch or leave a hole
+    layout = rnd.choice(["single", "single", "tail-empty", "head-empty", "both-empty", "split-adjacent", "split-hole"])
+    areas = []
+    if layout in ("head-empty", "both-empty"):
+        k = rnd.randint(1, 3)
+        areas.append((16 - k, k, "rw", "M"))
+    if layout.startswith("split") and len(ents) >= 2:
+        cut = rnd.randint(1, len(ents) - 1)
+        cut_addr = ents[cut][1]
+        if layout == "split-hole":
+            # move the second group up by a hole of 1..3 atoms
+            hole = rnd.randint(1, 3)
+            ents = ents[:cut] + [(ty, a + hole, k) for ty, a, k in ents[cut:]]
+            end += hole
+            areas.append((16, cut_addr - 16, flags, akind))
+            areas.append((cut_addr + hole, end - (cut_addr + hole), "rw", "M"))
+        else:
+            areas.append((16, cut_addr - 16, flags, akind))
+            areas.append((cut_addr, end - cut_addr, "rw", "M"))
+    else:
+        areas.append((16, end - 16, flags, akind))
+    if layout in ("tail-empty", "both-empty"):
+        areas.append((end, rnd.randint(1, 3), "rw", "M"))
+    line = "rt.table %d %s %s" % (rnd.randint(0, 1), "|".join("%d:%d:%s:%s" % a for a in areas),
+                                  "|".join("%s:%d:%s:%s" % (ty, a, default_for(ty, k), checks(ty)[k]) for ty, a, k in ents))
+    return line, ents, areas
 
 
 def cases(tier, seed):
@@ -58,7 +82,9 @@ def cases(tier, seed):
     cs = []
     nseq, ln = (30, 100) if tier == "quick" else (150, 600)
     for s in range(nseq):
-        line, ents, size = make_table(rnd, with_fail=(s % 5 == 4))
+        line, ents, areas = make_table(rnd, with_fail=(s % 5 == 4))
+        lo = min(a[0] for a in areas)
+        hi = max(a[0] + a[1] for a in areas)
         ops = [line, "rt.init"]
         for _ in range(ln):
             r = rnd.random()
@@ -70,17 +96,24 @@ def cases(tier, seed):
             elif r < 0.5:
                 ops.append("rt.%s %d %s %s" % (rnd.choice(["bset", "bclr"]), i, ty, hexv(ty, rnd.choice([1, 2, 1 << (BITS[ty] - 1), rnd.getrandbits(BITS[ty]), 0xffff]))))
             elif r < 0.8:
-                a = rnd.randint(15, 16 + size)
                 n = rnd.randint(0, 5)
+                if rnd.random() < 0.3 and n:
+                    # a block that ends on the last word of an area, or starts on the first
+                    ab, asz = rnd.choice(areas)[:2]
+                    a = rnd.choice([max(lo, ab + asz - n), ab])
+                else:
+                    a = rnd.randint(lo - 1, hi)
                 mode = rnd.random()
                 w = "".join(("%04x" % rnd.choice([0, 1, 6, 0x100, 0xff00, 0xffff, 0x7fc0, 0x7ff8, 0x8000])) if mode < 0.6 else ("%04x" % rnd.getrandbits(16)) for _ in range(n))
                 ops.append("rt.bwrite %d %s" % (a, w or "-"))
             elif r < 0.9:
                 # out-of-band corruption, then sanitise
                 for _ in range(rnd.randint(1, 3)):
+                    ai = rnd.randrange(len(areas))
+                    size = areas[ai][1]
                     off = rnd.randint(0, size - 1)
                     k = rnd.randint(1, min(4, size - off))
-                    ops.append("rt.poke 0 %d %s" % (off, "".join("%04x" % rnd.choice([rnd.getrandbits(16), 0xffff, 0x7ff8, 0x0001, 0]) for _ in range(k))))
+                    ops.append("rt.poke %d %d %s" % (ai, off, "".join("%04x" % rnd.choice([rnd.getrandbits(16), 0xffff, 0x7ff8, 0x0001, 0]) for _ in range(k))))
                 ops.append("rt.sanitise")
             else:
                 ops.append("rt.sanitise")
